@@ -707,7 +707,9 @@ def _run(ctx):
     mpairs = []
     seeds = [bytes.fromhex(h) for h in HISTORIC] + caps[:6] + gen[: ctx.budget(6, 60)]
     for x in seeds:
-        for k in range(len(x)):
+        ks = range(len(x)) if len(x) <= 256 else sorted(set(range(64)) | set(range(len(x) - 64, len(x)))
+                                                        | {ctx.rng.randrange(len(x)) for _ in range(128)})
+        for k in ks:
             mpairs.append(check_malformed(ctx, mb, x[:k], "truncation"))
     for _ in range(ctx.budget(1500, 60000)):
         mpairs.append(check_malformed(ctx, mb, mutate(ctx, pick(ctx, caps + gen[:200])), "mutation"))
